@@ -11,7 +11,7 @@ try:
 finally:
     import shutil; shutil.rmtree(ctx.workdir, ignore_errors=True)
 r = ctx.result()
-print('evals', r['evaluations'], 'rejected', r['rejected'], 'excluded', r['excluded'], 'wall', r['wall_s'])
+print(json.dumps(r['extra'])[:3000]); print('evals', r['evaluations'], 'rejected', r['rejected'], 'excluded', r['excluded'], 'wall', r['wall_s'])
 cl = r['classes']
 print({k: v for k, v in cl.items() if not k.startswith('op:')})
 if r['violation']:
